@@ -84,6 +84,8 @@ func c14ReorderedTags(ctx *fw.Ctx, e jsx.Engine) *fw.Result {
 			fmt.Fprintf(&body, " t%d ", k)
 		}
 	}
+	// ... and one printed value, which the translation wraps in literal braces
+	body.WriteString(" {lb}{1 + 1}{rb}")
 	src := "{namespace mt}\n/** */\n{template .t}\n{msg desc=\"d\"}" + strings.TrimSpace(body.String()) + "{/msg}\n{/template}\n"
 	files := []srcFile{{"mt.soy", src}}
 	reg, err := compileRegistry(files, nil)
@@ -108,14 +110,19 @@ func c14ReorderedTags(ctx *fw.Ctx, e jsx.Engine) *fw.Result {
 		return &fw.Result{Verdict: fw.Inconclusive, Key: "tag-message-has-no-tag-placeholders", Case: src}
 	}
 	var names []string
-	for _, p := range soymsg.Parts(soymsg.PlaceholderString(msg)) {
-		if ph, ok := p.(soymsg.PlaceholderPart); ok {
-			names = append(names, ph.Name)
+	for _, p := range ref.ParseParts(soymsg.PlaceholderString(msg)) { // (the harness's own reading of the placeholder string)
+		if p.Ph != "" {
+			names = append(names, p.Ph)
 		}
 	}
 	r.Shuffle(len(names), func(a, b int) { names[a], names[b] = names[b], names[a] })
 	var tr, want strings.Builder
 	for k, nm := range names {
+		if _, isTag := tagOf[nm]; !isTag {
+			tr.WriteString("{{" + nm + "}}x{ID_{" + nm + "}}")
+			want.WriteString("{2}x{ID_2}")
+			continue
+		}
 		tr.WriteString("{" + nm + "}")
 		want.WriteString(tagOf[nm])
 		if k%2 == 1 && r.Bool() {
